@@ -113,6 +113,10 @@ def cases(ctx):
         for ram in (0x7E0000, 0x7E2000, 0x7FFF00):
             out.append({"kind": "org-to-ram", "rom": rom, "trace": True, "spec": {"t": "blocks", "high": rom == "high"},
                         "src": f"*={org:#08x}\n.db 1\n*={ram:#08x}\nvar:\n.db 2, 3\n.dl var\n*={org + 0x100:#08x}\n.db 4\n"})
+            # several RAM stretches in a row (after a *= and after a @=), then ROM again: every byte stays contiguous
+            out.append({"kind": "org-to-ram", "rom": rom, "trace": True, "spec": {"t": "blocks", "high": rom == "high"},
+                        "src": (f"*={org:#08x}\n.db 1\n*={ram:#08x}\nram_a:\n.db 2, 3\n*={(ram & 0xFF0000) | 0x3000:#08x}\nram_b:\n.db 4, 5, 6\n"
+                                f".dl ram_a, ram_b\n*={org + 0x100:#08x}\n.db 7\n@={ram:#08x}\nram_c:\n.db 8\n*={(ram & 0xFF0000) | 0x4000:#08x}\n.db 9\n.dl ram_c\n")})
     # bank crossing with contiguous file offsets
     for rom, org in (("low", 0x00FFFD), ("low", 0x80FFFE), ("low", 0x6EFFFF), ("high", 0x40FFFC), ("high", 0xC1FFFF)):
         out.append({"kind": "bank-cross", "rom": rom, "trace": True, "spec": {"t": "blocks", "high": rom == "high"},
@@ -126,7 +130,10 @@ def cases(ctx):
                     "src": f"*={org:#08x}\n.db 0xE0\nblob:\n.incbin 'big.bin'\nafter:\n.dl after, blob\njmp.l after\n"})
     # user .map configurations
     for text, org, ram, ranges in MAPS:
+        ram_is_ram = any(r[3] and r[0] <= (ram >> 16) <= r[1] for r in ranges)
         for body in ("nop\n.db 1,2,3\nl:\n.dl l\n", f"lda.w #0x1234\n@={ram:#08x}\nr:\n.dl r\n*={org + 0x20:#08x}\nrts\n",
+                     # *= into the declared RAM region (`writable=1`): the output stays contiguous
+                     *([f".db 1\n*={ram:#08x}\nv:\n.db 2, 3\n.dl v\n*={org + 0x40:#08x}\n.db 4\n"] if ram_is_ram else []),
                      ".db 1,2,3,4,5,6,7,8,9,10,11,12,13,14,15,16,17,18\nend:\n.dl end\n"):
             # with a built-in mapping chosen first (as the front ends do) and without (the bare library entry point)
             for rom in ("low", None, "high"):
